@@ -84,7 +84,8 @@ func init() {
 
 		"(*sync.Mutex).Lock":      inLock("lock"),
 		"(*sync.Mutex).Unlock":    inLock("unlock"),
-		"(*sync.Mutex).TryLock":   func(ex *Exec, c *callCtx) (Value, bool) { return ex.tt.True, true },
+		"(*sync.Mutex).TryLock":   inTryLock,
+		"(*sync.RWMutex).TryLock": inTryLock,
 		"(*sync.RWMutex).Lock":    inLock("lock"),
 		"(*sync.RWMutex).Unlock":  inLock("unlock"),
 		"(*sync.RWMutex).RLock":   inLock("rlock"),
@@ -820,8 +821,33 @@ func (ex *Exec) trailingZeros(x *Term) *Term {
 func inLock(kind string) intrinsic {
 	return func(ex *Exec, c *callCtx) (Value, bool) {
 		c.s.events = append(c.s.events, Event{Name: kind, Args: []Value{c.args[0]}})
+		// writer-lock depth per mutex (observable through TryLock only; a blocking Lock of a
+		// held mutex is not modelled: one goroutine, no schedules)
+		if p, ok := c.args[0].(Ptr); ok && (kind == "lock" || kind == "unlock") {
+			d := 1
+			if kind == "unlock" {
+				d = -1
+			}
+			c.s.addLock(lockKey(p), d)
+		}
 		return nil, true
 	}
+}
+
+func lockKey(p Ptr) string { return fmt.Sprintf("%d/%v", p.Obj, p.Path) }
+
+// TryLock succeeds iff the mutex is not held (by the single goroutine of the run).
+func inTryLock(ex *Exec, c *callCtx) (Value, bool) {
+	p, ok := c.args[0].(Ptr)
+	if !ok {
+		return ex.tt.True, true
+	}
+	k := lockKey(p)
+	if c.s.locks[k] > 0 {
+		return ex.tt.False, true
+	}
+	c.s.addLock(k, 1)
+	return ex.tt.True, true
 }
 
 func inAtomicLoad(ex *Exec, c *callCtx) (Value, bool) {
